@@ -37,7 +37,7 @@ FirstDiff(a, b, Same(_, _)) ==      \* 0 if the two sequences agree on their com
 SameFrame(x, y) == x.frame = y.frame
 SameDtm(x, y) == x.dtm = y.dtm
 SameAll(x, y) == x.dtm = y.dtm /\ x.frame = y.frame /\ x.rssi = y.rssi /\ x.comment = y.comment
-SameTail(x, y) == SubSeq(x, 27, Len(x)) = SubSeq(y, 27, Len(y))      \* a log line without its timestamp
+SameTail(x, y) == Sub(x, 27, Len(x)) = Sub(y, 27, Len(y))      \* a log line without its timestamp
 
 \* t = <<day number, second of day, microsecond>> (integers recorded next to every ISO text)
 Before3(a, b) == a[1] < b[1] \/ (a[1] = b[1] /\ (a[2] < b[2] \/ (a[2] = b[2] /\ a[3] <= b[3])))
